@@ -203,8 +203,8 @@ PLAN = {
         level_text="Generated-input search over render sequences with a snapshot invariant and a metamorphic fresh-replica oracle. Exploration level.",
         level_note="The fresh-replica reference is produced by the library on an untouched table; an error common to every first render is invisible here (C03-C08 judge content). Items whose text embeds a memory address are not generated.",
         technique="property-based testing (rapid): snapshot invariant over render histories + metamorphic fresh-replica comparison",
-        quick=[rapid("prop", "TestProp", 3000)],
-        thorough=[rapid("prop", "TestProp", 80000, shards=16)],
+        quick=[rapid("prop", "TestProp", 3000), enum("default", "TestDefault")],
+        thorough=[rapid("prop", "TestProp", 80000, shards=16), enum("default", "TestDefault")],
     ),
     "C15": dict(
         pkg="c15",
@@ -339,6 +339,22 @@ RULE_EXTRA7 = {
     "C19": "Registered names may contain dots (selected as a whole, bare and after 'texttable.'); 'texttable.NAME.trailing' selects NAME.",
 }
 
+# additions of round 8 (DESIGN 9.17)
+RULE_EXTRA8 = {
+    "C01": "A third table (headed, its column and column 0 marked skipable) is rendered in every format between the mutation and the reading: no render is an Update.",
+    "C02": "Column handles are asked for first, before NColumns or anything else is called.",
+    "C03": "Custom decorations may use one-cell glyphs of five to seven bytes; an application's own render-time cell callback (failing for some cells, or not) may be registered before any wrapper exists; rows of up to 12 cells; pending zero-value rows; cells that have lived (and were measured) in another table.",
+    "C04": "As C03; width-declaring items and plain cells draw now and then from one small pool of texts.",
+    "C06": "Headers may be replaced (also by an empty header row); the template name may be changed between the renders on one wrapper.",
+    "C07": "A sixth of the cases make their skipable settings through a render-time callback on the table itself.",
+    "C09": "Style strings with further sections through auto ('html.class', 'html.id', 'csv.', 'texttable..', ...); width-declaring items whose text ends inside an unterminated escape sequence.",
+    "C10": "A twelfth of the cases first render the finished table 66..131 times through package-level functions of one kind (text or Markdown); cells that have lived in another table.",
+    "C11": "Pending zero-value rows (refused cells and noted errors while detached are reported once the row has joined).",
+    "C13": "Callbacks may be handed over as values of a func type (not comparable); registrations with an undeclared target or time must be refused whatever the owner.",
+    "C14": "After every act each column still says for alignment and skipable what the settings left there; every HTML wrapper carries the same template name, under which another table was rendered first. Job 'default': the default decoration renders the same bytes after stock names were re-registered.",
+    "C19": "Name families (P, P.S, P.S.T registered with different decorations): the expectation follows the documented rule on the style as built - the whole remainder if registered, else its first section.",
+}
+
 # properties deliberately not claimed, with the reason (empty: the technique applies to all 19)
 NOT_APPLICABLE = {}
 
@@ -350,3 +366,6 @@ for _pid, _extra in RULE_EXTRA6.items():
 
 for _pid, _extra in RULE_EXTRA7.items():
     PLAN[_pid]["rule"] = PLAN[_pid]["rule"] + " Round 7: " + _extra
+
+for _pid, _extra in RULE_EXTRA8.items():
+    PLAN[_pid]["rule"] = PLAN[_pid]["rule"] + " Round 8: " + _extra
